@@ -117,6 +117,7 @@ func c10Stressors(thorough bool) [][]byte {
 		)
 	}
 	out = append(out, c10TokenBoundaries()...)
+	out = append(out, c10TokenFaults()...)
 	big := 1 << 20
 	out = append(out, wrap("  > "+strings.Repeat("x", big)), wrap("  > \""+strings.Repeat("s", big)+"\""), wrap("  > "+strings.Repeat("9", big)), wrap("  > 1."+strings.Repeat("9", big)),
 		wrap("  > \""+strings.Repeat("\\", big)), []byte(strings.Repeat("#", big)), []byte(strings.Repeat("\n", big)), []byte("\xef\xbb\xbf@ GET /t {\n  > 1\n}\n"), []byte("@ GET /t {\r\n  > 1\r\n}\r\n"), []byte("@ GET /t {\r  > 1\r}\r"))
@@ -146,6 +147,66 @@ func c10TokenBoundaries() [][]byte {
 				for _, c := range conts {
 					out = append(out, []byte(ctx+lx[:cut]+c))
 				}
+			}
+		}
+	}
+	return out
+}
+
+// c10Snippets: one small well-formed program per construct of the grammar.
+var c10Snippets = []string{
+	": User {\n  name: str! @minLen(2) @maxLen(40)\n  age: int @min(-40) @range(-1.5, 150)\n  mail: str @email @oneOf([\"a\", \"b\"])\n  tags: [str]\n  addr: Addr?\n  role: str = \"user\"\n  id: int | str\n  xs: List[int]\n}\n",
+	"@ POST /users/:id -> User {\n  + auth(jwt)\n  + ratelimit(10/min)\n  % db: Database\n  < input: User\n  ? page: int = 1\n  ? (input.age > 0) :: 400 \"bad\"\n  $ u = db.users.create(input)\n  > u :: 201\n}\n",
+	"@ GET /m/:x {\n  $ r = match x {\n    1 => \"one\"\n    n when n > 3 => \"big\"\n    [h, ...rest] => h\n    {a, b} => a\n    _ => null\n  }\n  switch r {\n    case \"one\" {\n      > 1\n    }\n    default {\n      > 2\n    }\n  }\n}\n",
+	"! greet name: str! --formal: bool = false {\n  if formal {\n    $ msg = \"Good day, \" + name\n  } else if name == \"x\" {\n    msg = \"x\"\n  } else {\n    msg = \"Hey\"\n  }\n  > {greeting: msg}\n}\n",
+	"* \"0 9 * * 0\" weekly_report {\n  + retries(3)\n  % db: Database\n  > {ok: true}\n}\n\n& \"email.send\" {\n  + concurrency(5)\n  + timeout(30)\n  > {sent: true, to: message.to}\n}\n\n~ \"user.created\" async {\n  > {id: event.id}\n}\n",
+	"! sum<T>(xs: [T], init: T = 0): T {\n  $ acc = init\n  for i, x in xs {\n    if x == null {\n      continue\n    }\n    acc = acc + x\n    while acc > 100 {\n      acc = acc - 100\n      break\n    }\n  }\n  > acc\n}\n",
+	"@ GET /a {\n  $ f = async {\n    > 1 + 2 * 3 - -4 % 5\n  }\n  $ o = {a: [1, 2.5, \"s\", true, null], \"b c\": {d: !false}}\n  $ o.a = o.a[0]\n  o[\"k\"] = await f\n  $ p = o.a |> toString\n  > {r: o, p: p && true || false}\n}\n",
+	"@ ws /chat/:room {\n  on connect {\n    ws.join(room)\n    ws.broadcast(\"joined\")\n  }\n  on message {\n    ws.broadcast_to_room(room, input)\n  }\n  on disconnect {\n    ws.leave(room)\n  }\n}\n",
+	"import \"./lib\" as lib\nconst LIMIT = 10\n\n@ GET /c {\n  > {l: LIMIT, v: lib.f(1)}\n}\n",
+	"@ static /assets \"./public\"\n\n@ GET /t {\n  > text(\"hi\", 200)\n}\n\ntest \"adds\" {\n  assert 1 + 1 == 2\n}\n",
+	"trait Named {\n  name(): str\n}\n\ncontract Pay {\n  charge(amount: int): bool\n}\n\nmacro! log(x) {\n  > x\n}\n",
+}
+
+// c10TokenFaults: single-token fault enumeration over the snippets. Every token of every
+// snippet is, one at a time, deleted, duplicated, cut off (end of input) and replaced by each
+// of a fixed set of other tokens. A parser that does not advance (or recurses) on an
+// unexpected token at ANY position of the grammar shows up as a hang or a stack overflow.
+func c10TokenFaults() [][]byte {
+	subs := []string{"-", "(", ")", "@", ",", "x", "1", "2.5", "\"s\"", "{", "}", "[", "]", ":", "=>", "|", "!", "?", "<", ">", "\n", "...", "=", "+", "%", "$", "&", "*", "~", "#", ".", "::", "->", "if", "match", "async", "null"}
+	var out [][]byte
+	for _, sn := range c10Snippets {
+		toks, err := parser.NewLexer(sn).Tokenize()
+		if err != nil || len(toks) == 0 {
+			continue
+		}
+		// byte offsets of the tokens: re-scan by line/column
+		lines := strings.SplitAfter(sn, "\n")
+		lineStart := make([]int, len(lines)+1)
+		for i, l := range lines {
+			lineStart[i+1] = lineStart[i] + len(l)
+		}
+		type span struct{ from, to int }
+		var spans []span
+		for i, t := range toks {
+			if t.Line < 1 || t.Line > len(lines) || t.Column < 1 {
+				continue
+			}
+			from := lineStart[t.Line-1] + t.Column - 1
+			to := len(sn)
+			if i+1 < len(toks) && toks[i+1].Line >= 1 && toks[i+1].Line <= len(lines) {
+				to = lineStart[toks[i+1].Line-1] + toks[i+1].Column - 1
+			}
+			if from < 0 || from >= len(sn) || to <= from || to > len(sn) {
+				continue
+			}
+			spans = append(spans, span{from, to})
+		}
+		for _, sp := range spans {
+			tok := sn[sp.from:sp.to]
+			out = append(out, []byte(sn[:sp.from]+sn[sp.to:]), []byte(sn[:sp.to]+tok+sn[sp.to:]), []byte(sn[:sp.from]))
+			for _, sub := range subs {
+				out = append(out, []byte(sn[:sp.from]+sub+" "+sn[sp.to:]))
 			}
 		}
 	}
@@ -565,7 +626,7 @@ func c10SameConst(v vm.Value, typ, val string) bool {
 
 func checkC10(tier string) {
 	r := mon.New("C10", tier, "exploration")
-	r.Rule = "source: repository examples and generated programs under byte mutations (flip, delete, duplicate, splice, insert interesting bytes, truncate), random bytes, and grammar-aware stressors (nesting of ( [ { - ! if match args field index at depths 10..20000 [1e6 thorough], 1 MiB identifiers/strings/numbers/comments, BOM, CRLF, lone CR) through lexer, expanded lexer and parser; bytecode: structured builder (headers, constant pools with hostile lengths, opcodes with boundary operands and jump targets, wrong code lengths), random bytes, mutations of compiler output, through vm.Execute (200000-step limit) and the decompiler; all in RLIMIT_AS=4 GiB children with a watchdog of 20 s + 1 s per 64 KiB of input. agreement: generated programs (incl. match and async/await) compiled at O0/O1/O3. distinct = input hash; non-trivial = non-empty input / >= 5 executed instructions"
+	r.Rule = "source: repository examples and generated programs under byte mutations (flip, delete, duplicate, splice, insert interesting bytes, truncate), random bytes, enumerated grammar-aware stressors (every prefix of ~70 lexeme kinds at end of input and before 9 continuation bytes; every token of 11 construct snippets deleted / duplicated / cut off / replaced by each of 37 other tokens; nesting of ( [ { - ! if match args field index at depths 10..20000 [1e6 thorough], 1 MiB identifiers/strings/numbers/comments, BOM, CRLF, lone CR) through lexer, expanded lexer and parser; bytecode: structured builder (headers, constant pools with hostile lengths, opcodes with boundary operands and jump targets, wrong code lengths), random bytes, mutations of compiler output, through vm.Execute (200000-step limit) and the decompiler; all in RLIMIT_AS=4 GiB children with a watchdog of 20 s + 1 s per 64 KiB of input. agreement: generated programs (incl. match and async/await) compiled at O0/O1/O3. distinct = input hash; non-trivial = non-empty input / >= 5 executed instructions"
 	r.Assume("allocation bound: 256 MiB + 8 KiB per input byte (TotalAlloc delta); time bound: watchdog of 20 s + 1 s per 64 KiB of input per call (the lexer needs about 2 s per MiB on a loaded machine), two goroutine dumps")
 	onDeath := func(kind string) func(int, mon.ChildOut, *mon.Rec) bool {
 		return func(i int, co mon.ChildOut, hang *mon.Rec) bool {
@@ -577,7 +638,9 @@ func checkC10(tier string) {
 			return true
 		}
 	}
-	ns := r.Pick(40000, 2000000)
+	nstress := len(c10Stressors(r.Thorough()))
+	ns := nstress + r.Pick(30000, 2000000) // every enumerated stressor runs, then the PRNG-driven mutations
+	r.Set("enumerated_source_stressors", nstress)
 	r.RunBatch(mon.Batch{Worker: "c10src", N: ns, Chunk: (ns + 15) / 16, Parallel: 16, MemKB: 4 << 20, Timeout: 60 * time.Minute, OnDeath: onDeath("c10src")})
 	nb := r.Pick(40000, 2000000)
 	r.RunBatch(mon.Batch{Worker: "c10bc", N: nb, Chunk: (nb + 15) / 16, Parallel: 16, MemKB: 4 << 20, Timeout: 60 * time.Minute, OnDeath: onDeath("c10bc")})
